@@ -63,7 +63,9 @@ SRCS = ['crypto/crypto_aes.c', 'crypto/crypto_aes_aesni.c',
         'util/insecure_memzero.c', 'util/warnp.c']
 # hwlu: the AES-NI build as a compiler without _mm_loadu_si64 gets it
 # (cpusupport.sh then adds -DBROKEN_MM_LOADU_SI64: another load sequence)
-BUILDS = [('hw', None), ('sw', ['X86_CPUID']), ('hwlu', None)]
+# hwnat: the AES-NI build with -march=native in the CFLAGS (as a user's `make CFLAGS=...` gives it:
+# predefines such as __SSE4_1__ / __AVX2__ select code the default build never compiles)
+BUILDS = [('hw', None), ('sw', ['X86_CPUID']), ('hwlu', None), ('hwnat', None)]
 FULLMAX = 4096
 M64 = (1 << 64) - 1
 
@@ -625,6 +627,17 @@ def gen_cases(seed, tier, shard=0, nshards=1):
     for i, item in enumerate(far_items(1 if tier == 'quick' else 12)):
         if i % nshards == shard:
             cases.append(far_case(frnd, item))
+    # adjacent (not overlapping) buffers: the output starts where the input ends,
+    # or ends where the input starts
+    arnd = random.Random(seed ^ 0xAD1)
+    for i in range(12 if tier == 'quick' else 200):
+        n = arnd.choice([0, 1, 15, 16, 17, 32, 100, 4096, arnd.randrange(1, 3000)])
+        key, nonce = rand_key(arnd), rand_nonce(arnd)
+        cases.append({'kind': 'ctr-adjacent', 'expect': '', 'nt': True,
+                      'line': 'J %s %d %s %d %d' % (key.hex(), nonce, core.hx(rbytes(arnd, n)), i % 2,
+                                                    arnd.randrange(0, n + 1)),
+                      'sig': sig('J', len(key), n, i % 2),
+                      'meta': {'adjacent': '%d bytes, output %s the input' % (n, 'before' if i % 2 else 'behind')}})
     # the last blocks of the stream: up to and including the byte 2^64 - 1
     for i, c in enumerate(end_of_range_cases(random.Random(seed ^ 0xE0F))):
         if i % nshards == shard:
@@ -654,6 +667,10 @@ def judge(c, ans):
     t = ans.split()
     if kind == 'intr':
         return None
+    if kind == 'ctr-adjacent':
+        if ans.strip() == 'adjacent ok':
+            return None
+        return ('oracle:ctr-adjacent', '%s: %s' % (c['meta']['adjacent'], ans.strip()))
     if kind == 'ctr-huge':
         if ans.strip() == 'huge ok':
             return None
@@ -972,7 +989,8 @@ def build(ctx):
     exes = []
     for bname, cpu in BUILDS:
         objs = ctx.builder.lib('asan', SRCS, cpu=cpu,
-                               defs=(('BROKEN_MM_LOADU_SI64',) if bname == 'hwlu' else ()))
+                               defs=(('BROKEN_MM_LOADU_SI64',) if bname == 'hwlu' else ()),
+                               extra=(('-march=native',) if bname == 'hwnat' else ()))
         exes.append((bname, ctx.builder.driver('c02-' + bname, 'asan',
                                                ['c02_aes.c', 'common/refaes.c',
                                                 'common/wrapalloc.c',
